@@ -298,8 +298,14 @@ func TestVerifC06Shape(t *testing.T) {
 				continue
 			}
 			q := vfgen.GenQuery(rt, true)
-			if rapid.IntRange(0, 2).Draw(rt, "usehot") > 0 {
+			switch rapid.IntRange(0, 3).Draw(rt, "usehot") {
+			case 1, 2:
 				q.Name, q.Qtype = hot.name, hot.qtype
+			case 3:
+				// the proof zone: the denied name, names below it and beside it (answered from the subtree cut or a
+				// synthesised denial once the first validated denial is cached), other types at the NODATA owner
+				z := hots[len(hots)-5+rapid.IntRange(0, 4).Draw(rt, "szname")]
+				q.Name, q.Qtype = z.name, z.qtype
 			}
 			ing := rapid.SampledFrom([]string{"wire", "wire", "decoded", "doh", "doq"}).Draw(rt, "ingress")
 			pr := rapid.SampledFrom([]string{"udp", "udp", "tcp"}).Draw(rt, "proto")
